@@ -7,6 +7,7 @@ import (
 	"sort"
 	"strings"
 	"sync"
+	"sync/atomic"
 	"testing"
 	"time"
 
@@ -106,6 +107,25 @@ func genC18(seed uint64, tier string) any {
 
 type c18Closer interface{ Close() error }
 
+var errMuxCollision = fmt.Errorf("quic-go's process-wide connection multiplexer still knows this node:service")
+
+// c18Listen opens an advertised stream listener.  quic-go keeps a process-wide registry of packet connections keyed
+// by their local address ("node:service" here) and panics on a second registration; a listener of an earlier run
+// of this process whose teardown had not finished when its bubble ended (seen twice in 4000 runs) would take the
+// whole worker down with it.  That is neither receptor's doing nor this run's subject: the open is skipped.
+func c18Listen(nc *netceptor.Netceptor, svc string, tags map[string]string) (li *netceptor.Listener, err error) {
+	defer func() {
+		if r := recover(); r != nil {
+			if fmt.Sprint(r) == "connection already exists" {
+				li, err = nil, errMuxCollision
+				return
+			}
+			panic(r)
+		}
+	}()
+	return nc.ListenAndAdvertise(svc, nil, tags)
+}
+
 func runC18(t *testing.T, planAny any, res *simnet.Result) {
 	p := planAny.(*C18Plan)
 	simnet.Bubble(t, func() {
@@ -128,7 +148,7 @@ func runC18(t *testing.T, planAny any, res *simnet.Result) {
 			}
 			name := fmt.Sprintf("L%d", i+1)
 			l := m.AddLink(simnet.LinkCfg{Name: name, Latency: time.Duration(pl.LatMs)*time.Millisecond + time.Duration(simnet.H(res.Seed, "lat", name)%99991)*time.Nanosecond,
-				FIFO: i%2 == 1 || p.ReorderMs == 0, Jitter: time.Duration(p.ReorderMs) * time.Millisecond, Framed: i%2 == 1}, ids[pl.A], ids[pl.B], simnet.DyadicCost(1, i*13+3))
+				FIFO: true, AdJitter: time.Duration(p.ReorderMs) * time.Millisecond, Framed: i%2 == 1}, ids[pl.A], ids[pl.B], simnet.DyadicCost(1, i*13+3))
 			links = append(links, l)
 			if p.LateJoin >= 0 && (pl.A == p.LateJoin || pl.B == p.LateJoin) {
 				continue
@@ -204,6 +224,7 @@ func runC18(t *testing.T, planAny any, res *simnet.Result) {
 			}
 		}
 		var omu sync.Mutex // (the close-in-round action runs on a goroutine of the node)
+		voided := false
 		open := map[string]c18Closer{}
 		dead := map[string]bool{}
 		defer installYields(res.Seed, 0, "none")()
@@ -211,9 +232,12 @@ func runC18(t *testing.T, planAny any, res *simnet.Result) {
 		// a close that takes its time: the goroutine closing a socket is held, on the simulated clock, at the point
 		// where PacketConn.Close is about to take the listener lock (no lock is held there), long enough for one of
 		// the owner's periodic advertisement rounds to run in between
+		var inRoundClose atomic.Int32
 		slowCloses := 0
 		setYieldAction("lock", func(site string) {
-			if !strings.HasPrefix(site, "packetconn.go:PacketConn.Close:") {
+			if !strings.HasPrefix(site, "packetconn.go:PacketConn.Close:") || inRoundClose.Load() > 0 {
+				// (not stacked on the close that already happens inside an advertisement round: the two together
+				// would stall the round for seconds between collecting and sending)
 				return
 			}
 			omu.Lock()
@@ -238,7 +262,9 @@ func runC18(t *testing.T, planAny any, res *simnet.Result) {
 			delete(open, key)
 			omu.Unlock()
 			time.Sleep(time.Millisecond)
+			inRoundClose.Add(1)
 			_ = c.Close()
+			inRoundClose.Add(-1)
 			time.Sleep(time.Millisecond) // (time passes between any two actions of a real node)
 			w.Event("close %s (inside an advertisement round)", key)
 			w.Count("fault_close_inside_ad_round", 1)
@@ -301,8 +327,13 @@ func runC18(t *testing.T, planAny any, res *simnet.Result) {
 					tg = map[string]string{"t": ev.Tag}
 				}
 				if ev.Strm {
-					li, err := n.Net().ListenAndAdvertise(ev.Svc, nil, tg)
+					li, err := c18Listen(n.Net(), ev.Svc, tg)
 					if err != nil {
+						if err == errMuxCollision {
+							// (the half-opened listener stays advertised: this run can no longer be judged)
+							res.Add("probe_quic_multiplexer_collision", 1)
+							voided = true
+						}
 						continue
 					}
 					omu.Lock()
@@ -363,7 +394,9 @@ func runC18(t *testing.T, planAny any, res *simnet.Result) {
 			time.Sleep(200 * time.Millisecond)
 			checkpoint()
 		}
-		if w.OverBudget() {
+		if voided {
+			res.Violations = nil
+		} else if w.OverBudget() {
 			res.Violate("c18:advertisement-storm", "the run used more than %d link messages: advertisement flooding does not terminate (%d events)", w.MsgBudget, len(evs))
 		} else {
 			// (1) every node lists exactly the advertised services currently open on the nodes it can reach
@@ -429,7 +462,8 @@ func runC18(t *testing.T, planAny any, res *simnet.Result) {
 				}
 			}
 		}
-		dumpWire(w, " ad ")
+		dumpWire(w, os.Getenv("VERIF_DEBUG_MATCH"))
+		dumpEvents(w, "")
 		res.SimSeconds = w.Now().Seconds()
 		res.LogHash, res.LogLines = w.CanonicalLogHash()
 		res.Merge(w.Stats())
